@@ -209,9 +209,10 @@ def ballStarting (s : St) (player ball : Nat) : St :=
   if !s.freePlay && player == 1 && ball == 2 && !s.resetThisGame then { s with tier := 0, resetThisGame := true }
   else s
 
-/-- `_game_started` (only registered in credit play): the expiration delays are removed, the tier count restarts -/
+/-- `_game_started` (only registered in credit play): the expiration delays are removed, the tier count restarts and
+the once-per-game flag of the ball-2 restart is cleared -/
 def gameStarted (s : St) : St :=
-  if s.freePlay then s else { s with fracDue := none, allDue := none, tier := 0 }
+  if s.freePlay then s else { s with fracDue := none, allDue := none, tier := 0, resetThisGame := false }
 
 /-- the request itself -/
 def act (c : Cfg) (s : St) : Op → St
